@@ -77,12 +77,21 @@ def check_closest(case, ctx):
                 excl_paths.add(pop.files[i % len(pop.files)].path)
         excl_periods = [tuple(p) for p in case["exclude_periods"]]
         cov = tpl["coverage_s"]
+        final_cov = None if cov is None else dt.timedelta(seconds=cov)
+        late = case.get("coverage_late")
         fileset = FileSet(
             pop.path, name="c16",
-            time_coverage=None if cov is None else dt.timedelta(seconds=cov),
+            time_coverage=final_cov if late is None else (
+                None if late == 0 else dt.timedelta(seconds=late)),
             exclude=(sorted(excl_paths) + excl_periods) or None,
             placeholder=G.user_placeholder_arg(tpl),
             handler=FileHandler(reader=read_name))
+        if late is not None:
+            # history: the fileset is used (its info cache is filled) with
+            # another time_coverage before the final one is assigned
+            ctx.label("coverage-assigned-late")
+            list(fileset.find(no_files_error=False))
+            fileset.time_coverage = final_cov
         truth = pop.by_path()
         for q in case["queries"]:
             t, filters = q["t"], q["filters"]
@@ -231,9 +240,10 @@ def closest_cases(draw):
         a = draw(st.sampled_from(bounds))
         excl_periods.append([a, a + draw(st.sampled_from(
             [dt.timedelta(0), unit, dt.timedelta(hours=3)]))])
+    late = draw(st.sampled_from([None, None, None, 0, 1, 7200]))
     return {"template": tpl, "files": files, "distractors": distract,
             "exclude_files": excl_files, "exclude_periods": excl_periods,
-            "queries": queries}
+            "queries": queries, "coverage_late": late}
 
 
 @st.composite
